@@ -647,19 +647,32 @@ def run(ctx, proofs):
     cli = common.build_cli()
     quick = ctx.tier == "quick"
     corpus = load_corpus()
-    nfiles = 3000 if quick else 20000
+    # Round 6: every file is analysed in BOTH front-end modes - as written (no main component: ParseResult::Library,
+    # TemplateLibrary::new) and with its ONE `component main = T(..);` appended (ParseResult::Program, ProgramArchive::new
+    # -> Merger::add_definitions).  The two paths build the TemplateData records (parallel / custom flags!) at different
+    # call sites.  The appended line moves no recorded range: the same ground truth judges both, and the findings of
+    # every definition must be the same in both modes.
+    nfiles = 2000 if quick else 12000
+
+    def with_main(c):
+        return dict(c, src=c["src"] + c["main_line"], origin=c["origin"] + " + `%s`" % c["main_line"].strip(),
+                    mode="program", base_origin=c["origin"], base_src=c["src"])
+
     def batches():
-        yield list(corpus)
+        yield list(corpus) + [with_main(c) for c in corpus if c.get("main_line")]
         done = 0
         while done < nfiles:
             batch = []
-            for _ in range(min(1000, nfiles - done)):
+            for _ in range(min(500, nfiles - done)):
                 c = c08gen.generate(ctx.rng, size=ctx.rng.choice([3, 6, 10, 16]))
                 c["origin"] = "generated #%d" % done
                 done += 1
                 batch.append(c)
+                batch.append(with_main(c))
             yield batch
 
+    by_mode = {}            # (origin of the library-mode file, definition) -> its findings there
+    mode_cnt = collections.Counter()
     disagreements, failing, hyp_broken = [], [], []
     listed = {k["id"] for k in ctx.known}
     known_hits = collections.Counter()
@@ -674,13 +687,14 @@ def run(ctx, proofs):
     dropped = collections.Counter()       # everything this run leaves out of a comparison, by reason
     triples = ((c, im, mo) for batch in batches() for c, im, mo in zip(batch, *evaluate(batch, harness, model)))
     for c, im, mo in triples:
-        if c["origin"].startswith("corpus"):
+        is_prog = c.get("mode") == "program"
+        if is_prog or c["origin"].startswith("corpus"):
             pass
         elif any(c08gen.known_classes(d) - {c08gen.PARTIAL_CLASS} for d in c["defs"]):
             dropped["file kept out of the CLI end-to-end pool: holds a known-finding shape (judged in process)"] += 1
         elif len(e2e_pool) < 4 * (96 if quick else 600):
             e2e_pool.append(c)
-        if sample is None and c["origin"].startswith("generated"):
+        if sample is None and c["origin"].startswith("generated") and not is_prog:
             sample = c
         if "bad" in im:
             failing.append({"input": c["src"], "origin": c["origin"], "impl": im["bad"], "spec": "the file is analysed"})
@@ -688,10 +702,21 @@ def run(ctx, proofs):
         stats["files"] += 1
         if im["parse_reports"]:
             stats["files_with_parse_reports"] += 1
-        lf_sources.append((c["origin"], c["src"]))
-        for defn in c["defs"]:
-            if hypothesis_exempt(defn, listed):
-                lf_exempt.add((c["src"], defn["name"]))
+        # the front-end mode the harness reports for this text
+        want_mode = "program" if is_prog else ("library" if c.get("main_line") else None)
+        mode_cnt["files analysed in %s mode" % im.get("mode")] += 1
+        if want_mode and im.get("mode") != want_mode:
+            if is_prog:
+                mode_cnt["files with a main component that the front end read as a library (program archive failed)"] += 1
+            else:
+                failing.append({"input": c["src"], "origin": c["origin"], "why": "a file without main component is read in %s mode"
+                                % im.get("mode"), "impl": im.get("mode"), "spec": None})
+        if not is_prog:
+            # (the lifting mirror is tied on the definitions once: the main line adds no definition)
+            lf_sources.append((c["origin"], c["src"]))
+            for defn in c["defs"]:
+                if hypothesis_exempt(defn, listed):
+                    lf_exempt.add((c["src"], defn["name"]))
         for defn in c["defs"]:
             name = defn["name"]
             got = im["defs"].get(name)
@@ -703,6 +728,25 @@ def run(ctx, proofs):
                     failing.append({"input": c["src"], "origin": c["origin"], "definition": name,
                                     "impl": "definition dropped by the front end", "spec": c08gen.expected(defn)})
                 continue
+            # round 6: the same findings in both modes; parallel / custom templates with `<--` counted per mode
+            if defn.get("header") and defn["assigns"] and "reports" in got and im.get("mode") in ("program", "library"):
+                hd = defn["header"].strip()
+                if hd != "template":
+                    mode_cnt["in process, %s mode: `%s` definitions with `<--`" % (im["mode"], hd)] += 1
+                    mode_cnt["in process, %s mode: `<--` statements in `%s` definitions" % (im["mode"], hd)] += len(defn["assigns"])
+            if not is_prog:
+                by_mode[(c["origin"], name)] = got.get("reports", got.get("liftfail"))
+            elif (c["base_origin"], name) in by_mode:
+                lib_found = by_mode.pop((c["base_origin"], name))
+                prog_found = got.get("reports", got.get("liftfail"))
+                mode_cnt["definitions compared between library and program mode"] += 1
+                if lib_found != prog_found:
+                    failing.append({"input": c["src"], "origin": c["origin"], "definition": name,
+                                    "why": "the CS0005 / CS0013 findings of %s `%s` depend on the front-end mode: with the main component "
+                                           "(program archive) %s, without it (template library) %s"
+                                           % (defn.get("header", defn["kind"]).strip(), name, prog_found, lib_found),
+                                    "impl": got.get("raw", got.get("liftfail")), "spec": c08gen.expected(defn),
+                                    "library_mode_input": c["base_src"]})
             # correspondence model vs implementation
             mgot = mo.get(name, {})
             if "liftfail" not in got:
@@ -1033,7 +1077,7 @@ def run(ctx, proofs):
                            "hypothesis": "generator c08gen no longer writes the shapes %s" % missing})
 
     # end to end through the binary (fourth audit: seeded spellings of paths and options, layouts, the rendered body)
-    ne2e = 96 if quick else 600
+    ne2e = 64 if quick else 400          # each picked file is run twice (without / with its main component)
     pick = e2e_pool
     random.Random(ctx.seed).shuffle(pick)
     pick = [c for c in corpus if not any(c08gen.known_classes(d) - {c08gen.PARTIAL_CLASS} for d in c["defs"])] + pick[:ne2e]
@@ -1054,10 +1098,14 @@ def run(ctx, proofs):
             if i < len(forced):
                 var[forced[i][0]] = forced[i][1]
         jobs.append((len(jobs), c, var, "main"))
+        if c.get("main_line"):
+            # the same file with its main component, same spellings: program mode through the binary
+            jobs.append((len(jobs), with_main(c), var, "program"))
+    nmain = len(jobs)
     # CS0005 / CS0013 must not depend on the curve: a subset of the files is run with each of the three curves,
     # everything else equal
     ncurve = 12 if quick else 60
-    for c, var0 in [(j[1], j[2]) for j in jobs[len(pick) - min(ncurve, len(pick)):]]:
+    for c, var0 in [(j[1], j[2]) for j in [j for j in jobs if j[3] == "main"][-min(ncurve, len(pick)):]]:
         for cv in CURVES:
             jobs.append((len(jobs), c, dict(var0, curve=cv), "curve"))
     with concurrent.futures.ThreadPoolExecutor(max_workers=common.NPROC) as ex:
@@ -1066,6 +1114,7 @@ def run(ctx, proofs):
     e2e_cnt = collections.Counter()
     e2e_variants = collections.Counter()
     by_curve = collections.defaultdict(dict)
+    cli_modes = collections.defaultdict(dict)
     partial_known = (c08gen.PARTIAL_CLASS,) if KF_IDS[c08gen.PARTIAL_CLASS] in listed else ()
     for (ji, c, var, kind), res in zip(jobs, e2e_res):
         vname = variant_name(var)
@@ -1074,6 +1123,13 @@ def run(ctx, proofs):
                             "spec": None, "e2e": True, "variant": var})
             continue
         e2e_checked += 1
+        if kind in ("main", "program"):
+            md = "program" if kind == "program" else "library"
+            for defn in c["defs"]:
+                hd = (defn.get("header") or "").strip()
+                if hd and hd != "template" and defn["assigns"]:
+                    mode_cnt["CLI, %s mode: `%s` definitions with `<--`" % (md, hd)] += 1
+            cli_modes[(c.get("base_origin", c["origin"]), json.dumps(var, sort_keys=True))][md] = (c, res)
         if kind == "main":
             for ax in axes:
                 v = var[ax]
@@ -1113,6 +1169,16 @@ def run(ctx, proofs):
                             "impl": {n: {"sarif": fr["sarif"], "rendered": fr["body"]} for n, fr in res["files"].items()},
                             "spec": want, "e2e": True, "variant": var,
                             "partial_class": any(c08gen.PARTIAL_CLASS in c08gen.known_classes(d) for d in c["defs"])})
+    for key, two in cli_modes.items():
+        if len(two) == 2:
+            (cl, rl), (cp, rp) = two["library"], two["program"]
+            e2e_cnt["files_run_without_and_with_their_main_component"] += 1
+            fl, fp = ({n: fr["sarif"] for n, fr in r["files"].items()} for r in (rl, rp))
+            if fl != fp:
+                failing.append({"input": cp["src"], "origin": cp["origin"], "why": "end to end (CLI: %s): the CS0005 / CS0013 findings "
+                                "depend on the front-end mode: `circomspect %s` with the main component %s, without it %s"
+                                % (variant_name(json.loads(key[1])), rp["cmd"], fp, fl),
+                                "impl": fp, "spec": fl, "e2e": True, "variant": json.loads(key[1]), "library_mode_input": cl["src"]})
     for key, runs3 in by_curve.items():
         if len(runs3) == len(CURVES):
             e2e_cnt["files_run_with_all_three_curves"] += 1
@@ -1132,9 +1198,17 @@ def run(ctx, proofs):
               "files_run_with_all_three_curves"):
         if not e2e_cnt[k]:
             e2e_missing.append(k)
+    for where in ("in process", "CLI"):
+        for md in ("library", "program"):
+            for hd in ("template parallel", "template custom", "template custom parallel"):
+                k = "%s, %s mode: `%s` definitions with `<--`" % (where, md, hd)
+                if not mode_cnt[k]:
+                    e2e_missing.append(k)
+    if not mode_cnt["definitions compared between library and program mode"] or not e2e_cnt["files_run_without_and_with_their_main_component"]:
+        e2e_missing.append("no file was analysed both without and with its main component")
     if e2e_missing and not failing:
         hyp_broken.append({"input": None, "origin": "CLI stage", "definition": "-",
-                           "hypothesis": "degenerate CLI stage: never exercised / never read: %s" % e2e_missing})
+                           "hypothesis": "degenerate generator / CLI stage: never exercised / never read: %s" % e2e_missing})
 
     # known findings: their witnesses are corpus files (corpus/C08/K-*.json) and were replayed above
     for k in ctx.known:
@@ -1222,6 +1296,7 @@ def run(ctx, proofs):
         "pass_panics_other_passes": stats["pass_panics"],
         "e2e_cli_files": e2e_checked,
         "e2e_cli_variants": dict(e2e_variants),
+        "front_end_modes": dict(mode_cnt),
         "e2e_cli_rendered_body": dict(e2e_cnt),
         "disagreements_model_vs_impl": len(disagreements),
         "hypothesis_violations": len(hyp_broken),
